@@ -259,6 +259,8 @@ def reconsume_not_recounted(ctx):
 
 
 def run(ctx):
+    ctx.rule("R09.8", "= R03.16: a line is counted exactly when input stream preprocessing answers a line feed (CR, CR LF and LF each once)")
+    ctx.guard("R09.8", "preprocessing", lambda: tr.preprocess_transcription(ctx, "R09.8", "html"))
     ctx.rule("R09.7", "a pending CR's line feed is skipped (uncounted) only together with clearing the flag, on every path that saw it - also when the chunk ends there (R03.3); "
                       "a character that is reconsumed is handed back as it is, without being counted again")
     ctx.guard("R09.7", "ignore_lf-consumed", lambda: tr.ignore_lf_consumed_when_seen(ctx, "R09.7", "html"))
